@@ -14,7 +14,7 @@ UNIQUE_POSE = ["asym4", "chiral5", "weakchiral4", "axis_asym4", "bent3_y"]      
 
 
 def make_runs(run):
-    n = 44 if run.tier == "quick" else 900
+    n = 44 if run.tier == "quick" else 300
     runs = []
     k = 0
     while len(runs) < n and k < 30 * n:
